@@ -273,7 +273,7 @@ def run_harness(h, tier, rootdir, keep):
     res['build_s'] = round(time.time() - t0, 2)
     res['functions'] = b['info']['functions']; res['externals'] = b['info']['externals']
     res['config'] = b['cfg']; res['defines'] = b['defines']
-    timeout = h.get('timeout', 600 if tier == 'quick' else 3000)
+    timeout = h.get('timeout', 1800 if tier == 'quick' else 3600)
     mem = h.get('memgb', 6)
     # witness twin; doubles as the loop-bound finder: a failed unwinding assertion raises that loop's bound and the
     # twin is run again (per-loop iterative deepening), so bounds are derived from the code, not guessed
